@@ -727,6 +727,22 @@ def check_memo_keys(ctx, rep, funcs, rule=RULE + '.memo'):
                 continue
             container = {x.id for x in ast.walk(M) if isinstance(x, ast.Name)}
             stop = container | {'self'}
+            # lifetime of the container: a local of f is rebuilt on every call (no memo across calls); a local of an
+            # enclosing function lives for one call of that function, during which its parameters are fixed
+            if isinstance(M, ast.Name):
+                def assigns(g):
+                    return any(isinstance(x, (ast.Assign, ast.AnnAssign)) and any(isinstance(t, ast.Name) and t.id == M.id for t in (x.targets if isinstance(x, ast.Assign) else [x.target])) for x in walk_no_nested(g.node))
+                if M.id not in f.params and assigns(f):
+                    continue
+                g = f.parent
+                while g is not None:
+                    if assigns(g) and M.id not in g.params:
+                        h = g
+                        while h is not None:
+                            stop |= set(h.params)
+                            h = h.parent
+                        break
+                    g = g.parent
             vdeps = _param_deps(f, st.value, extra_stop=stop) - stop
             kdeps = _param_deps(f, key, extra_stop=stop) - stop
             n += 1
